@@ -65,6 +65,8 @@ ExpectV(kind, v, rt) ==
     [] kind = "marshalOK" -> v = Obj(<<[k |-> "ok", v |-> Num("true")], [k |-> "n", v |-> Arr(<<Num("1"), Num("2")>>)]>>)
     [] kind \in {"marshalFail", "valuerMarshalFail"} -> v = S("MF!")
     [] kind \in {"marshalGarbage", "chan", "func"} -> IsStr(v)                \* shows up as an error string
+    [] kind \in {"marshalFailCtl", "valuerMarshalFailCtl", "errCtl", "ansiCtl"} -> IsStr(v)   \* text with control / invalid bytes: still one strict string
+    [] kind = "mapCtl" -> v.t = "o"
     [] kind = "marshalMultiline" -> v = Obj(<<[k |-> "a", v |-> Num("1")]>>)
     [] kind = "valuerStr" -> v = S("LV")
     [] kind = "valuerInt" -> v = Num("5")
